@@ -125,4 +125,56 @@ theorem solo_producer (s : St) (l : List Bytes) (b : Bytes)
   simp [holds, SoloP, iterP, stepP, St.toQ, Seq.apply, Seq.enqueue, Seq.lock,
       Seq.unlock, Seq.republish, Seq.recvTok, Seq.sendTok, bind, Except.bind, pure, Except.pure]
 
+/-! ## witness states for the non-vacuity examples in `Props/C20.lean` -/
+
+/-- helper for the non-vacuity examples: run a schedule (`inl b` = a producer step, with `b` the
+argument if it is a new call; `inr c` = a consumer step) -/
+def sched : List (Bytes ⊕ Call) → St → Option St
+  | [], s => some s
+  | .inl b :: r, s => (stepP s b).bind (sched r)
+  | .inr c :: r, s => (stepC s c).bind (sched r)
+
+theorem reach_sched : ∀ (l : List (Bytes ⊕ Call)) (s s' : St), Reach s → sched l s = some s' → Reach s' := by
+  intro l
+  induction l with
+  | nil => intro s s' h e; simp [sched] at e; exact e ▸ h
+  | cons x xs ih =>
+    intro s s' h e
+    cases x with
+    | inl b =>
+      simp only [sched] at e
+      cases hp : stepP s b with
+      | none => simp [hp] at e
+      | some s1 => simp [hp] at e; exact ih s1 s' (.step h (.p b hp)) e
+    | inr c =>
+      simp only [sched] at e
+      cases hc : stepC s c with
+      | none => simp [hc] at e
+      | some s1 => simp [hc] at e; exact ih s1 s' (.step h (.c c hc)) e
+
+/-- a reachable state in the middle of things: the producer has enqueued `[1]`, is inside
+`Enqueue([2])` holding the lock with the chunk appended but the depth not yet republished, while
+the consumer has read the (stale) depth token and is about to put it back. -/
+def midState : St :=
+  { queue := [[1], [2]], depth := 2, token := none, lock := some .prod, ppc := .recv,
+    cpc := .gSend .dq 1, produced := [[1], [2]], clog := [], rets := [] }
+
+theorem midState_reach : Reach midState := by
+  refine reach_sched
+    ((List.replicate 7 (.inl [1])) ++ [.inl [2], .inl [2], .inr .dequeue, .inr .dequeue, .inl [2], .inl [2]])
+    init _ .init ?_
+  decide
+
+/-- a reachable state with the consumer idle after a `Dequeue` that returned the first chunk, no
+put-backs, the producer between calls -/
+def afterState : St :=
+  { queue := [[2]], depth := 1, token := some 1, lock := none, ppc := .idle, cpc := .idle,
+    produced := [[1], [2]], clog := [.got [1]], rets := [.deq (some [1])] }
+
+theorem afterState_reach : Reach afterState := by
+  refine reach_sched
+    ((List.replicate 7 (.inl [1])) ++ (List.replicate 7 (.inl [2])) ++ List.replicate 11 (.inr .dequeue))
+    init _ .init ?_
+  decide
+
 end Scrapli.Queue.Conc
